@@ -102,7 +102,7 @@ PROPS = {
                  "non-trivial: >=1 notification and (>=1 failed call or >=1 explicit transaction); distinct = hash of the (call kind, #notifications, failed?) sequence"),
         "real_vs_stub": "real: internal/db mutations, txn callbacks, event bus, GraphQL subscription handler; stub: storage faults at the corekv seam, disk = committed-batch log; not run: net (the consumer of the notifications)",
         "assumptions": ASSUME_COMMON,
-        "probes": ["notifications", "failed_calls", "explicit_txns", "faults_fired", "subscription_results", "writes_to_another_collection", "txns_committing_one_document_repeatedly"],
+        "probes": ["notifications", "failed_calls", "explicit_txns", "faults_fired", "subscription_results", "writes_to_another_collection", "txns_committing_one_document_repeatedly", "bursts_with_a_slow_subscriber"],
         "quick": {"count": 60, "budget_s": 60, "workers": 16},
         "thorough": {"count": 100000, "budget_s": 1500, "workers": 16},
         "text": "After every call: the update notifications observed are exactly the document-level (and, for branchable collections, collection-level) commits that became durable during the call, none for failed or discarded work, none before an explicit commit; each carries a cid that is the hash of its bytes and a block readable from the store; all bus subscribers see the same sequence; the filtered GraphQL subscription delivers one non-empty result per committed matching change.",
